@@ -382,6 +382,136 @@ func checkC14(c *Ctx) {
 		}
 	}
 
+	// ---- C14-DEL: what stays in the bucket is everything but the matched pair
+	{
+		// a slice of the bucket: returns (low, high) operands
+		isAppendOfBoth := func(v ssa.Value) bool {
+			call, ok := v.(*ssa.Call)
+			if !ok {
+				return false
+			}
+			bi, ok := call.Call.Value.(*ssa.Builtin)
+			if !ok || bi.Name() != "append" || len(call.Call.Args) != 2 {
+				return false
+			}
+			pre, ok1 := call.Call.Args[0].(*ssa.Slice)
+			suf, ok2 := call.Call.Args[1].(*ssa.Slice)
+			if !ok1 || !ok2 || pre.X != suf.X {
+				return false
+			}
+			// prefix [.. : i], suffix [i+1 : ..] for the same i
+			if pre.High == nil || suf.Low == nil {
+				return false
+			}
+			if pre.Low != nil {
+				if k, ok := constIntOf(pre.Low); !ok || k != 0 {
+					return false
+				}
+			}
+			bo, ok := suf.Low.(*ssa.BinOp)
+			if !ok || bo.Op != token.ADD || bo.X != pre.High {
+				return false
+			}
+			k, ok := constIntOf(bo.Y)
+			return ok && k == 1
+		}
+		nRem := 0
+		eachInstr(del, func(b *ssa.BasicBlock, i int, in ssa.Instruction) {
+			switch x := in.(type) {
+			case *ssa.MapUpdate:
+				if !derivesFromField(x.Map, Map, 0) {
+					return
+				}
+				nRem++
+				c.check(isAppendOfBoth(x.Value), "C14-DEL", "SexpHash.HashDelete", "bucket keeps every other pair", x.Pos(),
+					"the bucket written back is bucket[:i] followed by bucket[i+1:]",
+					"the bucket written back after a delete is not `bucket[:i] ++ bucket[i+1:]`: other keys that share the bucket are lost or the deleted pair stays")
+			case *ssa.Call:
+				bi, ok := x.Call.Value.(*ssa.Builtin)
+				if !ok || bi.Name() != "delete" || !derivesFromField(x.Call.Args[0], Map, 0) {
+					return
+				}
+				nRem++
+				// the whole bucket is dropped only when nothing but the matched pair was in it
+				okEmpty := guardedBy(b, func(cond ssa.Value) (bool, bool) {
+					bo, ok := cond.(*ssa.BinOp)
+					if !ok || (bo.Op != token.EQL && bo.Op != token.NEQ) {
+						return false, false
+					}
+					k, isK := constIntOf(bo.Y)
+					lc, isLen := bo.X.(*ssa.Call)
+					if !isK || !isLen {
+						return false, false
+					}
+					lb, ok := lc.Call.Value.(*ssa.Builtin)
+					if !ok || lb.Name() != "len" {
+						return false, false
+					}
+					arg := lc.Call.Args[0]
+					if k == 0 && isAppendOfBoth(arg) {
+						return true, bo.Op == token.EQL
+					}
+					if k == 1 {
+						if _, isSlice := arg.(*ssa.Slice); !isSlice { // len(bucket) == 1
+							return true, bo.Op == token.EQL
+						}
+					}
+					return false, false
+				})
+				c.check(okEmpty, "C14-DEL", "SexpHash.HashDelete", "bucket dropped only when it held nothing else", x.Pos(),
+					"the bucket is removed from the map only when the remainder (everything but the matched pair) is empty",
+					"the bucket is removed from the map on a test that does not cover the pairs before the matched one: deleting the later of two colliding keys drops the earlier one too")
+			}
+		})
+		if nRem < 2 {
+			c.undecided("C14-DEL", "SexpHash.HashDelete", "bucket remainder", del.Pos(), "the write-back and the removal of the bucket were not both found")
+		}
+	}
+
+	// ---- C14-WM: the order list is never handed out
+	{
+		nLoads := 0
+		for _, f := range c.zygoFuncs() {
+			eachInstr(f, func(b *ssa.BasicBlock, i int, in ssa.Instruction) {
+				ld, ok := in.(*ssa.UnOp)
+				if !ok || ld.Op != token.MUL {
+					return
+				}
+				fa, ok := ld.X.(*ssa.FieldAddr)
+				if !ok || faField(fa) != KeyOrder {
+					return
+				}
+				nLoads++
+				for _, ref := range *ld.Referrers() {
+					esc := ""
+					switch x := ref.(type) {
+					case *ssa.Store:
+						if x.Val != ssa.Value(ld) {
+							continue
+						}
+						if fa2, ok := x.Addr.(*ssa.FieldAddr); ok {
+							if faField(fa2) == KeyOrder {
+								continue // hash-to-hash copy is C14-WM's business (CloneFrom)
+							}
+							esc = "stored into " + fa2.X.Type().String() + "." + faField(fa2).Name()
+						}
+					case *ssa.Return:
+						esc = "returned"
+					case *ssa.MakeInterface:
+						esc = "converted to an interface value"
+					}
+					if esc != "" {
+						c.bad("C14-WM", fnName(f), "order list handed out", ref.Pos(),
+							"the hash's own order list is "+esc+" without being copied: whoever holds it can write or append to it, changing the order list behind the bucket map and the count")
+					}
+				}
+			})
+		}
+		c.check(nLoads >= 10, "C14-WM", "package", "order list handed out", token.NoPos,
+			fmt.Sprintf("%d reads of the order list examined: it is indexed, ranged over and copied, never handed out", nLoads),
+			fmt.Sprintf("only %d reads of the order list found", nLoads))
+	}
+
 	// ---- C14-GET: the value returned for a hit comes from the matched pair
 	if mGet != nil {
 		tail := c.field("SexpPair", "Tail")
